@@ -179,9 +179,10 @@ Exact(x, f) == (x * f[1]) % f[2] = 0
 SelectInitial == SelectInitialCore(cfg.h0)
 AdjustToEndpoint == AdjustCore(t + h, Abs(cfg.tf - t))
 Accept(f) == Exact(h, f) /\ AcceptCore(t + h, Times(h, f), f)
-\* environment assumption: a rejected step is retried with a strictly smaller step
-\* (the real controller stalls forever when the error test fails at h = min_step: an
-\*  observation outside property C02, see DESIGN section 10)
+\* environment assumption: a rejected step is retried with a strictly smaller step.
+\* What happens when it cannot be (error test fails at h = min_step) is the subject of
+\* StepStall.tla: the loop as first written retried for ever; since repository commit
+\* a9d94a7 it raises.
 RejectShrink(f) == Exact(h, f) /\ ClampH(cfg, Times(h, f)) < h /\ RejectCore(Times(h, f), f)
 
 Next ==
